@@ -147,7 +147,7 @@ def run(ctx):
             f["signature"] = sig_of(f["row"]) if orig else "row:tlc"
             fails.append(f)
     # ---- Apalache on every row, 64-bit
-    width = min(ctx.pick(4, 8), max(1, vlib.NCPU // 2))
+    width = min(8, max(1, vlib.NCPU // 2))
     per = max(1, -(-len(rows) // width))
     slices = [rows[i:i + per] for i in range(0, len(rows), per)]
     validated = 0
